@@ -33,6 +33,7 @@ def GT.pathV (rn : List Nat → Option (Num R)) : List (List Nat) → GT → Pro
   | Vs, .segs l => ∀ s ∈ l, s.pathV rn Vs
   | Vs, .ifc e body tail => (varsOkV rn Vs e 34 ∧ e.length < 65536) ∧ GTs.pathV rn Vs body ∧ GTail.pathV rn Vs tail
   | Vs, .loop S V body => (S ≠ [] → PathOkV Vs S) ∧ GTs.pathV rn (V :: Vs) body
+  | Vs, .iif e ts fs => (varsOkV rn Vs e 34 ∧ e.length < 65536) ∧ ValPath rn Vs ts ∧ ValPath rn Vs fs
 def GTs.pathV (rn : List Nat → Option (Num R)) : List (List Nat) → GTs → Prop
   | _, .nil => True
   | Vs, .cons b r => GT.pathV rn Vs b ∧ GTs.pathV rn Vs r
@@ -47,6 +48,7 @@ def GT.caseV (rn : List Nat → Option (Num R)) : GT → Prop
   | .segs _ => True
   | .ifc e body tail => (tail = .fin ∨ exprOk rn e) ∧ GTs.caseV rn body ∧ GTail.caseV rn tail
   | .loop _ _ body => GTs.caseV rn body
+  | .iif _ _ _ => True
 def GTs.caseV (rn : List Nat → Option (Num R)) : GTs → Prop
   | .nil => True
   | .cons b r => GT.caseV rn b ∧ GTs.caseV rn r
@@ -61,6 +63,7 @@ def rcostGT : GT → Nat
   | .segs l => nTags l
   | .ifc _ _ _ => 1
   | .loop _ _ _ => 1
+  | .iif _ _ _ => 1
 def rcostGTs : GTs → Nat
   | .nil => 0
   | .cons b r => rcostGT b + rcostGTs r
@@ -76,6 +79,7 @@ def expGT (cx : RCtx R) : List Binding → GT → List Nat
   | sc, .segs l => expSegsB cx sc l
   | sc, .ifc e body tail => if hitOfS cx sc e = true then expGTs cx sc body else expGTail cx sc tail
   | sc, .loop S V body => outEnts (fun x key => expGTs cx (⟨V, x, key⟩ :: sc) body) (entsO (collS cx sc S))
+  | sc, .iif e ts fs => expIif cx sc e ts fs
 def expGTs (cx : RCtx R) : List Binding → GTs → List Nat
   | _, .nil => []
   | sc, .cons b r => expGT cx sc b ++ expGTs cx sc r
@@ -93,6 +97,7 @@ def rneedGT (cx : RCtx R) : List Binding → GT → Nat
   | sc, .loop S V body =>
     (entsO (collS cx sc S)).length +
       sumEnts (fun x key => rneedGTs cx (⟨V, x, key⟩ :: sc) body) (entsO (collS cx sc S)) + rcostGTs body + 3
+  | _, .iif _ ts fs => nTagsVal ts + nTagsVal fs + 3
 def rneedGTs (cx : RCtx R) : List Binding → GTs → Nat
   | _, .nil => 1
   | sc, .cons b r => rneedGT cx sc b + rneedGTs cx sc r
@@ -355,6 +360,20 @@ theorem render_gt (cx : RCtx R) (cfg : ScanCfg R) (hg : cx.guardIndexRead = true
     simp only [tagsGT, rcostGT, List.cons_append, List.nil_append, render, r1, bind, Except.bind]
     congr 1
     simp only [List.length_append, hlb]; omega
+  | .iif e ts fs, E, dep, more, endO, post, B, txt, st, fuel, hc, hok, hpath, _, hD, hit, _, _, hf => by
+    simp only [GT.ok] at hok
+    obtain ⟨_, _, hts, hfs, hone, hsz⟩ := hok
+    simp only [GT.pathV] at hpath
+    obtain ⟨⟨hvo, he16⟩, hpt, hpf⟩ := hpath
+    simp only [rneedGT] at hf
+    simp only [printGT] at hc
+    have hrt := renderIif_env cx cfg hg hrn E hD B txt e post ts fs hc he16 hvo hts hfs hpt hpf hone hsz st hit fuel hf
+    refine ⟨B ++ txt ++ printIif e ts fs, [], emit (emit st txt) (expIif cx (scOf E) e ts fs),
+      by rw [hc]; simp [List.append_assoc], by simp [printGT, List.length_append]; omega,
+      by simp [emit, expGT, List.append_assoc], by simpa [emit] using hit, ?_⟩
+    simp only [tagsGT, rcostGT, List.cons_append, List.nil_append, render, hrt, bind, Except.bind]
+    congr 1
+    simp only [List.length_append]
 theorem render_gts (cx : RCtx R) (cfg : ScanCfg R) (hg : cx.guardIndexRead = true) (hrn : cfg.readNum = cx.readNum)
     (hn32 : cx.content.length < 4294967296) :
     ∀ (bs : GTs) (E : List EnvE) (dep : Nat) (more : List (Tag R)) (endO : Nat) (post B txt : List Nat) (st : RState)
@@ -505,6 +524,7 @@ def eneedGT (cx : RCtx R) : List Binding → GT → Nat
   | sc, .loop S V body =>
     (entsO (collS cx sc S)).length +
       sumEnts (fun x key => eneedGTs cx (⟨V, x, key⟩ :: sc) body) (entsO (collS cx sc S)) + 3
+  | _, .iif _ ts fs => (match ts with | some l => l.length | none => 0) + (match fs with | some l => l.length | none => 0) + 3
 def eneedGTs (cx : RCtx R) : List Binding → GTs → Nat
   | _, .nil => 1
   | sc, .cons b r => eneedGT cx sc b + (GT.toTpls b).length + eneedGTs cx sc r
@@ -549,6 +569,22 @@ theorem expand_gt (cx : RCtx R) : ∀ (b : GT) (sc : List Binding) (fuel : Nat),
         simp only [entsO, entsOf] at hf ⊢
         exact loopObj_gen (specOf cx) sc V (gtsTpl body) _ _ hb ms f (by omega)
       | _ => simp [entsO, entsOf, outEnts]
+  | .iif e ts fs, sc, fuel, hf => by
+    simp only [eneedGT] at hf
+    obtain ⟨f, rfl⟩ : ∃ f, fuel = f + 2 := ⟨fuel - 2, by omega⟩
+    simp only [GT.toTpls, expandList, expandTpl, expandList_nil, List.append_nil, expGT, expIif]
+    cases isTrue (evalText (specOf cx) sc e 34) with
+    | none => rfl
+    | some b =>
+      cases b with
+      | true =>
+        cases ts with
+        | none => rfl
+        | some l => simp only [Option.map_some, expVal]; exact expandList_body cx sc l f (by simp at hf; omega)
+      | false =>
+        cases fs with
+        | none => rfl
+        | some l => simp only [Option.map_some, expVal]; exact expandList_body cx sc l f (by simp at hf; omega)
 theorem expand_gts (cx : RCtx R) : ∀ (bs : GTs) (sc : List Binding) (fuel : Nat), eneedGTs cx sc bs ≤ fuel →
     expandList (specOf cx) fuel sc (gtsTpl bs) = expGTs cx sc bs
   | .nil, sc, fuel, _ => by simp [gtsTpl, expGTs, expandList_nil]
